@@ -217,6 +217,19 @@ def run(ctx):
         ctx.check("C07.views", m, None, ok,
                   f"{cname}.{mname} is not `{want[7:]}`: the enumeration order of sets / map keys must be the values' "
                   f"own order for every element kind", expr=f"{cname}.{mname}", site=f"{cname}.{mname}: {want[7:]}")
+    _collection_views(ctx, model)
+
+
+def _collection_views(ctx, model):
+    from .common import collection_sources
+    rows = collection_sources(model, P)
+    if rows is None:
+        ctx.broken("getCollectionValue", "kind tests / results not found")
+    gcv = model.func(P, "nodes", "getCollectionValue")
+    for kind, r, ok, t, by_value in rows:
+        ctx.check("C07.views", gcv, r, ok,
+                  f"comprehensions enumerate a {'set' if kind == 'isSet' else 'map'} through `{t[:70]}`, which is not "
+                  f"the order of the sorted elements / keys", site=f"getCollectionValue ({kind[2:].lower()}): {t[:60]}")
 
 
 def _adjacent_swap(stmts, pair):
